@@ -156,6 +156,14 @@ func (e *FieldExpression) Evaluate(ctx *Context, input system.Collection) (syste
 				}
 			}
 
+			// Element names with digits or consecutive capitals (lethalDose50,
+			// referenceRNA) do not survive the snake_case conversion: look the FHIR
+			// name up as the JSON name of the proto field.
+			if byJSON := reflect.Descriptor().Fields().ByJSONName(e.FieldName); byJSON != nil {
+				field = byJSON
+			}
+		}
+		if field == nil {
 			// Try again with "_value" added because sometimes Google protos do that
 			// for primitives like:
 			// Observation.ValueX.String --> Observation_ValueX_StringValue
